@@ -3,6 +3,7 @@
 package strategy
 
 import (
+	corev1 "k8s.io/api/core/v1"
 	"strconv"
 
 	metav1 "k8s.io/apimachinery/pkg/apis/meta/v1"
@@ -22,7 +23,11 @@ func zzNumNodes(quick, thorough int) int {
 
 // zzC03 runs one rolling-update sync over n nodes in arbitrary categories and checks
 // the availability budget of property C03.
-func zzC03(n int, percent, sharedVariants bool) {
+func zzC03(n int, percent, sharedVariants bool) { zzC03x(n, percent, sharedVariants, false) }
+
+// zzC03x: unknownReadiness = every pod whose Ready condition would be False reports it as Unknown (a
+// kubelet that stopped reporting): neither value is "available".
+func zzC03x(n int, percent, sharedVariants, unknownReadiness bool) {
 	cats := make([]int, n)
 	for i := range cats {
 		cats[i] = nondet.Int("cat"+strconv.Itoa(i), 0, zzNumCat-1)
@@ -55,6 +60,18 @@ func zzC03(n int, percent, sharedVariants bool) {
 		cats[i] = int(nondetConc(cats[i]))
 	}
 	params, items := zzParamsV(ds, rs, cats, sharedVariants)
+	if unknownReadiness {
+		for _, pod := range params.PodByNodeName {
+			if pod == nil {
+				continue
+			}
+			for i := range pod.Status.Conditions {
+				if pod.Status.Conditions[i].Type == corev1.PodReady && pod.Status.Conditions[i].Status == corev1.ConditionFalse {
+					pod.Status.Conditions[i].Status = corev1.ConditionUnknown
+				}
+			}
+		}
+	}
 	client := fakeapi.New()
 
 	res, err := ManageDeployment(client, ds, params, metav1.Now())
@@ -142,6 +159,10 @@ func nondetConc(x int) int {
 func ZZ_C03_budget() { zzC03(zzNumNodes(3, 4), false, true) }
 
 // ZZ_C03_budgetPercent: percentages.
+// ZZ_C03_budgetUnknownReadiness: the same budget on two nodes where a not-ready pod reports Ready=Unknown
+// instead of False.
+func ZZ_C03_budgetUnknownReadiness() { zzC03x(2, false, true, true) }
+
 func ZZ_C03_budgetPercent() { zzC03(zzNumNodes(3, 4), true, true) }
 
 // ZZ_C03_budgetVariants_thorough: three nodes, every node choosing its own sub-variants
